@@ -54,6 +54,14 @@ def shard_files(prefix, n):
     return [f for f in fs if os.path.exists(f) and os.path.getsize(f) > 0]
 
 
+def tv(ctx, files, module, name, timeout=900):
+    """vf.tv_run in batches of WORKERS trace files (vf.tv_run itself starts one TLC per file, up to all cores)."""
+    res = []
+    for i in range(0, len(files), WORKERS):
+        res += vf.tv_run(ctx, files[i:i + WORKERS], module=module, name="%s-%d" % (name, i // WORKERS), timeout=timeout)
+    return res
+
+
 def collect_fails(results):
     """[(file, line, check, event-dict)] for every FAIL line / rejection of a tv_run."""
     out = []
